@@ -59,7 +59,8 @@ class BaseFiles(Generic[Interface]):
             os.path.join(self.directory, os.path.join(*path.split("/")))
         )
 
-        if path == "/":
+        if path.endswith("/"):
+            # os.path.abspath drops the trailing slash that marks a directory URL
             abspath += "/"
 
         relpath = os.path.relpath(abspath, self.directory)
